@@ -270,11 +270,27 @@ func genGraph(rt *rapid.T, prefix string, maxN, depth int, condErr bool) *Gr {
 		}
 		sts[i] = s
 	}
-	// now and then a second stage that schedules the same pipeline object again, after the first use
+	// now and then a second stage that schedules the same pipeline object again: after the first use (it depends
+	// on it), or independently of it, so that both uses can be in flight together; stages behind position k may
+	// in turn depend on the second use
 	for i := 0; i < n; i++ {
 		if sts[i].Nested != nil && sts[i].Outcome != CondFalse && rapid.IntRange(0, 3).Draw(rt, "reuse-pipeline") == 0 {
 			r := &St{Name: name(n), ID: fmt.Sprintf("%s%d", prefix, n), Deps: []string{sts[i].Name}, Outcome: OK,
 				Nested: sts[i].Nested, ReuseOf: sts[i].ID, Allow: rapid.Bool().Draw(rt, "reuse-allow")}
+			if rapid.Bool().Draw(rt, "reuse-concurrently") {
+				k := rapid.IntRange(0, n).Draw(rt, "reuse-position")
+				r.Deps = nil
+				for j := 0; j < k; j++ {
+					if j != i && rapid.IntRange(0, 3).Draw(rt, "reuse-dep") == 0 {
+						r.Deps = append(r.Deps, sts[j].Name)
+					}
+				}
+				for j := k; j < n; j++ {
+					if j != i && rapid.Bool().Draw(rt, "dep-on-reuse") {
+						sts[j].Deps = append(sts[j].Deps, r.Name)
+					}
+				}
+			}
 			sts = append(sts, r)
 			break
 		}
